@@ -133,6 +133,8 @@ pub struct Hop {
     pub nat_keep_src: bool,
     /// Rewrite the quoted TOS byte to this value + 1 (0 = leave).
     pub tos_rewrite: u8,
+    /// The router answers with Destination Unreachable instead of Time Exceeded (a filtering device).
+    pub du: bool,
 }
 
 #[derive(Debug, Clone, Default, Serialize, Deserialize)]
@@ -169,6 +171,8 @@ pub struct NetBehaviour {
     /// Probability (percent) that a response is duplicated (second copy after `dup_gap_us`).
     pub dup_pct: u8,
     pub dup_gap_us: u64,
+    /// Virtual time a failing socket operation of a send takes (a failed bind / connect / send_to is not free).
+    pub fail_cost_us: u64,
 }
 
 impl Default for NetBehaviour {
@@ -181,6 +185,7 @@ impl Default for NetBehaviour {
             late_us: 0,
             dup_pct: 0,
             dup_gap_us: 500,
+            fail_cost_us: 0,
         }
     }
 }
